@@ -85,7 +85,9 @@ manifest = {
     'checks': checks,
     'not_applicable': na,
     'notes': ('Exit 0 held / 1 VIOLATION / 2 INCONCLUSIVE. Known findings in known_findings.json. '
-              'Repository changes are fix: commits only (see known_findings.json "lines").'),
+              'Repository changes are fix: commits only (see known_findings.json "lines"). '
+              'Every run spawns shard interpreters; the last shard(s) run with PYTHONOPTIMIZE=1 and '
+              'PYTHONINTMAXSTRDIGITS=0 (the interpreter mode is not an input of any property).'),
 }
 with open(os.path.join(ROOT, 'MANIFEST.json'), 'w') as fh:
     json.dump(manifest, fh, indent=1)
